@@ -125,6 +125,72 @@ def region(p: float) -> str:
     return f'{side}-far-tail(<e^-25)'
 
 
+# Algorithm AS241 (Wichura, Appl. Statist. 37 (1988) 477-484), routine PPND16, transcribed from the publication.
+# It is NOT the oracle (the oracle is norm_ppf above); it serves to tell *which* defect an inaccurate draw comes from:
+# as241(p, central=<piece selection rule>) is the value the published pieces deliver when the central piece is selected
+# by the given rule.  central='published' is |p - 1/2| <= 0.425 (then as241 agrees with norm_ppf to 1e-15, which
+# selftest_as241 verifies, so the transcription of the coefficients does not rest on the code under test);
+# central='abs_u_le_0.45' is the deviating selection |p| <= 0.45 documented in the open finding
+# 'C11|normal-quantile-inaccurate|region=...'.
+_AS241_A = (3.3871328727963666080e0, 1.3314166789178437745e2, 1.9715909503065514427e3, 1.3731693765509461125e4,
+            4.5921953931549871457e4, 6.7265770927008700853e4, 3.3430575583588128105e4, 2.5090809287301226727e3)
+_AS241_B = (1.0, 4.2313330701600911252e1, 6.8718700749205790830e2, 5.3941960214247511077e3, 2.1213794301586595867e4,
+            3.9307895800092710610e4, 2.8729085735721942674e4, 5.2264952788528545610e3)
+_AS241_C = (1.42343711074968357734e0, 4.63033784615654529590e0, 5.76949722146069140550e0, 3.64784832476320460504e0,
+            1.27045825245236838258e0, 2.41780725177450611770e-1, 2.27238449892691845833e-2, 7.74545014278341407640e-4)
+_AS241_D = (1.0, 2.05319162663775882187e0, 1.67638483018380384940e0, 6.89767334985100004550e-1,
+            1.48103976427480074590e-1, 1.51986665636164571966e-2, 5.47593808499534494600e-4, 1.05075007164441684324e-9)
+_AS241_E = (6.65790464350110377720e0, 5.46378491116411436990e0, 1.78482653991729133580e0, 2.96560571828504891230e-1,
+            2.65321895265761230930e-2, 1.24266094738807843860e-3, 2.71155556874348757815e-5, 2.01033439929228813265e-7)
+_AS241_F = (1.0, 5.99832206555887937690e-1, 1.36929880922735805310e-1, 1.48753612908506148525e-2,
+            7.86869131145613259100e-4, 1.84631831751005468180e-5, 1.42151175831644588870e-7, 2.04426310338993978564e-15)
+
+
+def _horner(coef, x: float) -> float:
+    """coef[0] + coef[1] x + ... + coef[7] x^7, nested from the highest coefficient (as in the publication)."""
+    v = coef[-1]
+    for c in reversed(coef[:-1]):
+        v = v * x + c
+    return v
+
+
+def as241(p: float, central: str = 'published') -> float:
+    q = p - 0.5
+    if central == 'published':
+        use_central = abs(q) <= 0.425
+    elif central == 'abs_u_le_0.45':
+        use_central = abs(p) <= 0.45
+    else:
+        raise KeyError(central)
+    if use_central:
+        r = 0.180625 - q * q
+        return q * _horner(_AS241_A, r) / _horner(_AS241_B, r)
+    r = p if q < 0.0 else 1.0 - p
+    if r <= 0.0:
+        return 0.0
+    r = math.sqrt(-math.log(r))
+    if r <= 5.0:
+        r -= 1.6
+        v = _horner(_AS241_C, r) / _horner(_AS241_D, r)
+    else:
+        r -= 5.0
+        v = _horner(_AS241_E, r) / _horner(_AS241_F, r)
+    return -v if q < 0.0 else v
+
+
+def selftest_as241() -> float:
+    """Worst disagreement (relative to max(1,|z|)) between the transcription of AS241 with the published piece
+    selection and the certified quantile, over a comb of (0,1), both tails and the limits of the pieces."""
+    pts = [k / 2000.0 for k in range(1, 2000)]
+    pts += [2.0 ** -j for j in range(2, 1000, 3)] + [1.0 - 2.0 ** -j for j in range(2, 54)]
+    pts += [0.075, 0.925, math.nextafter(0.075, 0.0), math.nextafter(0.925, 1.0), E25, E25 * 1.0000001, E25 * 0.9999999]
+    worst = 0.0
+    for p in pts:
+        z = norm_ppf(p)
+        worst = max(worst, abs(as241(p) - z) / max(1.0, abs(z)))
+    return worst
+
+
 # --------------------------------------------------------------------------- catalogue descriptions
 _INTERVAL = re.compile(r'\[\s*(-?\d+(?:\.\d+)?)\s*[,:]\s*(-?\d+(?:\.\d+)?)\s*\]')
 
